@@ -12,7 +12,8 @@ UNIT = Unit(
     describe="ast::lower, call expressions (fragment: the generic-callee branch of the CallExpr arm): a callee that is not an operator node — a "
              "parenthesised expression, a call, a closure, a field access, anything else — is lowered as it stands and CALLED with exactly the "
              "call's own arguments (further argument lists are applied to that call); only a prefix operator or a binary operator other than `.` "
-             "takes the arguments inward (`-f(x)` reads `-(f(x))`), and then all of them, in order",
+             "takes the arguments inward (`-f(x)` reads `-(f(x))`), and then all of them, in order; a call without arguments (`-f()`) is put around "
+             "the operand of the lowered operator node (helpers lower_operator_callee, apply_nullary_call)",
     trusted=["FRAGMENT: one branch of one arm of lower_expr_with_args; the recursive lowerings and apply_trailing_args are stubs with uninterpreted results; "
              "cst::Expr is a shim with the node kinds this branch distinguishes; `Vec::extend(Vec)` is a shim (appends)"],
     items=[
@@ -31,7 +32,15 @@ UNIT = Unit(
            rewrites=[(re.compile(r"matches!\(\s*bin_expr\.op\(\)\.map\(\|tok\| tok\.kind\(\)\),\s*Some\(MySyntaxKind::Dot\)\s*\)"), "bin_is_dot(bin_expr)", "*"),
                      (re.compile(r"\b(\w+)\.extend\((\w+)\);"), r"vec_extend_exprs(&mut \1, \2);", "*"),
                      (re.compile(r"let func_expr = lower_expr\(ctx, other\)\?;"), "let func_expr = match lower_expr(ctx, other) { Some(v) => v, None => { return None; } };", "*")],
-           obligation="a non-operator callee is called with the call's own arguments; an operator node takes all arguments inward, in order",
+           obligation="a non-operator callee is called with the call's own arguments; an operator node takes all arguments inward, in order — and a "
+                      "call WITHOUT arguments is not lost on the way (`-f()` is `-(f())`)",
            contract="ensures call_lowered(r, other, args@, trailing_args@, astptr),"),
+        Fn(file=LW, name="apply_nullary_call", ret="r", optional=True,
+           obligation="the call without arguments is put around the operand: through prefix operators, into the right operand of binary operators",
+           contract="ensures is_nullary_call_of(r, expr, call_astptr),\n decreases expr,"),
+        Fn(file=LW, name="lower_operator_callee", ret="r", optional=True,
+           rewrites=[(re.compile(r"let (\w+) = lower_expr\(ctx, (\w+)\)\?;"), r"let \1 = match lower_expr(ctx, \2) { Some(v) => v, None => { return None; } };", "*")],
+           obligation="an operator node in callee position: arguments travel inward; a call without arguments is put around the lowered node's operand",
+           contract="ensures operator_callee_lowered(r, callee, args@, call_astptr),"),
     ],
 )
